@@ -522,6 +522,17 @@ func (c *FnCtx) doGo(in *ssa.Go) {
 
 func (c *FnCtx) doDefer(in *ssa.Defer) {
 	c.deferred = append(c.deferred, in)
+	// ghost counter deferred(<callee>): how many defer statements naming that callee have executed so far
+	if name, _ := c.calleeName(&in.Call); name != "" {
+		k := "deferred " + normAnchor(shortName(name))
+		if c.watch[k] {
+			cur, ok := c.ghost[k]
+			if !ok {
+				cur = Val{T: c.mode.idxLit(0), Ty: intTy}
+			}
+			c.setGhost(k, Val{T: c.idxAdd(cur.T, c.mode.idxLit(1)), Ty: intTy})
+		}
+	}
 }
 
 func (c *FnCtx) runDefers() {
